@@ -72,17 +72,20 @@ class Scn:
     def typ(self, sid: str) -> str:
         return self.sims[sid]["type"]
 
-    def is_trigger(self, sid: str, attr: str) -> bool:
+    def is_trigger(self, sid: str, attr: str, eid: Optional[str] = None) -> bool:
         s = self.sims[sid]
-        kind = s.get("ins", {}).get(attr)
+        ins = s.get("ins2", s.get("ins", {})) if s.get("ent_model", {}).get(eid, "M") == "N" else s.get("ins", {})
+        kind = ins.get(attr)
         if kind is None and s.get("any_inputs"):
             # any_inputs: default by type
             return {"time-based": False, "event-based": True,
                     "hybrid": bool(s.get("any_default_trigger", False))}[s["type"]]
         return kind == "trigger"
 
-    def is_persistent(self, sid: str, attr: str) -> bool:
-        return self.sims[sid].get("outs", {}).get(attr) == "persistent"
+    def is_persistent(self, sid: str, attr: str, eid: Optional[str] = None) -> bool:
+        s = self.sims[sid]
+        outs = s.get("outs2", s.get("outs", {})) if s.get("ent_model", {}).get(eid, "M") == "N" else s.get("outs", {})
+        return outs.get(attr) == "persistent"
 
     def has_data(self, c: dict) -> bool:
         return "sa" in c
@@ -105,7 +108,7 @@ class Scn:
         return zero(self.path[sid], t)
 
     def has_connected_trigger_input(self, sid: str) -> bool:
-        return any(self.has_data(c) and self.is_trigger(sid, c["da"]) for c in self.by_dst.get(sid, []))
+        return any(self.has_data(c) and self.is_trigger(sid, c["da"], c["de"]) for c in self.by_dst.get(sid, []))
 
     def connected_outputs(self, sid: str) -> List[Tuple[str, str]]:
         seen = []
